@@ -173,6 +173,9 @@ def track(ver, case, obs, want):
 
 
 class SinkPart(Part):
+    SHRINK_FIELDS_FIRST = True
+    SHRINK_FIELDS_ONLY = True
+    NO_SHRINK_FIELDS = (0,)
     project_is_identity = True
     vm_slice = 120
     ver = 3
